@@ -44,6 +44,60 @@ def extra_config_probe(tier, seed):
     return dict(violations=viol, coverage=dict(config_sequences=len(seqs), config_rows=rows[:3]))
 
 
+def extra_macro_corpus(tier, seed):
+    """C19: generated corpus crate compiled against the real macros vs the Coq decision model."""
+    import json as _json
+    out = os.path.join(vlib.CACHE, "macro", tier)
+    p = vlib.sh([sys.executable, os.path.join(vlib.VERIF, "macro", "run_corpus.py"), out, "--tier", tier, "--seed", str(seed)],
+                timeout=3000)
+    viol = []
+    if p.returncode != 0:
+        viol.append(dict(what="macro corpus could not be built/run (exit %d)" % p.returncode, detail=(p.stdout + p.stderr)[-3000:],
+                         suffix=" no-failing-input-found"))
+        return dict(violations=viol, coverage=dict(programs=0))
+    cases = {}
+    for l in open(os.path.join(out, "cases.txt")):
+        w = l.split()
+        if len(w) == 3:
+            cases[w[0]] = (w[1], w[2])
+    model = {}
+    for l in vlib.sh([vlib.DRIVER, "--macro", os.path.join(out, "cases.txt")], check=True).stdout.splitlines():
+        w = l.split()
+        model[w[0]] = w[1:]
+    real = {}
+    for l in open(os.path.join(out, "real.txt")):
+        w = l.split()
+        if w:
+            real[w[0]] = w[1:]
+    checked, samples = 0, []
+    for cid, (attr, ret) in sorted(cases.items()):
+        r = real.get(cid)
+        m = model.get(cid, ["skip"])
+        if r is None:
+            viol.append(dict(what="no result for macro case", case=[cid, attr, ret]))
+            continue
+        checked += 1
+        kv = dict(t.split("=", 1) for t in r[1:] if "=" in t)
+        ok = True
+        if cid.startswith("s"):
+            ok = r[0] == "error"
+        elif attr == "manual":
+            ok = r[0] == "impl" and kv.get("tell_calls") == "1" and kv.get("ask_calls") == "0" and kv.get("ask_ok") == "1"
+        elif attr == "derive":
+            ok = r[0] == "derive" and kv.get("on_start_identity") == "1"
+        elif m[0] == "error":
+            ok = r[0] == "error"
+        elif m[0] == "impl":
+            mk = dict(t.split("=", 1) for t in m[1:])
+            ok = (r[0] == "impl" and kv.get("reply_unit") == mk["reply_unit"] and kv.get("logs_err") == mk["logs_err"]
+                  and kv.get("logs_ok") == "0" and kv.get("ask_ok") == "1" and kv.get("handled") == "4")
+        if not ok:
+            viol.append(dict(what="macro-generated code differs from the decision model", case=[cid, attr, ret], real=r, model=m))
+        elif len(samples) < 3:
+            samples.append(dict(case=[cid, attr, ret], real=" ".join(r), model=" ".join(m)))
+    return dict(violations=viol, coverage=dict(programs=checked, disagreements_checked=len(viol), macro_samples=samples))
+
+
 PROPS = {
     "C01": dict(
         props_file="Props/C01.v",
@@ -93,6 +147,14 @@ PROPS = {
         props_file="Props/C13.v",
         families=[("time", ("testutils",), 150), ("fault", ("testutils",), 100), ("core", NONE, 50)],
         projection="C13", monitors=["C13"],
+    ),
+    "C19": dict(
+        props_file="Props/C19.v",
+        families=[("core", NONE, 60)],
+        projection="C04", monitors=["C04"],
+        extra=[extra_macro_corpus],
+        level_text="The macro's decision table is proved for every signature/attribute in the Coq model (Props/C19.v); the model is tied to the real proc macros by compiling and running a generated corpus crate (positive cases, hand-written on_tell_result counters, derive cases, compile-fail negatives) and comparing every case with the extracted decide function; the run-time half (on_tell_result once per tell, never per ask) is a theorem about the actor loop model, tied by the director scripts.",
+        level_note="rustc and the macro expansion are exercised, not modelled; the corpus is finite (the table theorem is not).",
     ),
     "C04": dict(
         props_file="Props/C04.v",
